@@ -10,7 +10,8 @@
    ([qop_ok]); username is a str or None. *)
 From Coq Require Import ZArith List Bool Lia String.
 Require Import PW.lib.Val PW.lib.ValFacts PW.lib.Dec PW.lib.Py PW.lib.PyDigest
-        PW.model.Token PW.model.Digest PW.gen.DigestGen.
+        PW.model.Token PW.model.Digest PW.gen.TokenGen PW.proofs.TokenGenEq
+        PW.gen.DigestGen.
 Import ListNotations.
 Open Scope list_scope.
 Open Scope Z_scope.
@@ -264,6 +265,50 @@ Lemma pnot_opt o : pnot (inj_opt o)
   = Ok (PBool (match o with Some p => negb (nonempty p) | None => true end)).
 Proof. destruct o as [[|c p]|]; reflexivity. Qed.
 
+(* check_token(None, ...) -- a header without nonce: the generated
+   check_token (gen/TokenGen.v) compares None with the token, the model a
+   value unequal to every token (proofs/TokenGenEq.v covers str tokens) *)
+Lemma gen_check_token_none H s c timeout t :
+  0 <= t -> (forall T, timeout = Some T -> 0 <= T) ->
+  gen_check_token H PNone (PStr s) (PStr c) (inj_to timeout) (clock t)
+  = inj_ob (option_map (fun _ => false) (check_token H [] s c timeout t)).
+Proof.
+  intros Ht HT.
+  unfold gen_check_token, check_token, has_timeout, aligned, tok_eqb.
+  destruct timeout as [T|]; cbn [inj_to].
+  - pose proof (HT T eq_refl) as HT0.
+    unfold Py.pnot, Py.truthy. cbn [bind]. destruct (T =? 0) eqn:E0; cbn [negb].
+    + change (gen_get_token H (PStr s) (PStr c) PNone (PInt 0) (clock t))
+        with (gen_get_token H (PStr s) (PStr c) (inj_to None) (PInt 0) (clock t)).
+      rewrite gen_get_token_eq by (try assumption; intros ? [=]).
+      cbn [bind inj_ol get_token token_text has_timeout option_map inj_ob].
+      unfold Py.peq. cbn [pv_eqb as_int bind]. reflexivity.
+    + apply Z.eqb_neq in E0.
+      unfold clock at 1, pdiv. cbn [as_int bind].
+      replace (T =? 0) with false by (symmetry; apply Z.eqb_neq; lia).
+      unfold pint, pmul, padd, arith. cbn [as_int bind].
+      rewrite quot_floor by lia.
+      change (PInt T) with (inj_to (Some T)).
+      rewrite !gen_get_token_eq by (try assumption; intros ? [= <-]; assumption).
+      unfold get_token, token_text, has_timeout.
+      replace (T =? 0) with false by (symmetry; apply Z.eqb_neq; lia).
+      cbn [negb].
+      set (now := t / (T * usec) * T).
+      destruct (now + T =? 0) eqn:E1; destruct (now + T + T =? 0) eqn:E2;
+        unfold aligned; replace (T =? 0) with false by (symmetry; apply Z.eqb_neq; lia);
+        cbn [option_map inj_ol bind inj_ob]; unfold Py.peq;
+        cbn [pv_eqb as_int bind Py.truthy inj_ob];
+        repeat match goal with
+               | |- context [lz_eqb ?a ?b] => destruct (lz_eqb a b)
+               end; reflexivity.
+  - unfold Py.pnot, Py.truthy. cbn [bind negb].
+    change (gen_get_token H (PStr s) (PStr c) PNone (PInt 0) (clock t))
+      with (gen_get_token H (PStr s) (PStr c) (inj_to None) (PInt 0) (clock t)).
+    rewrite gen_get_token_eq by (try assumption; intros ? [=]).
+    cbn [bind inj_ol get_token token_text has_timeout option_map inj_ob].
+    unfold Py.peq. cbn [pv_eqb as_int bind]. reflexivity.
+Qed.
+
 (* one step of the generated code on injected values *)
 Ltac fmt_case :=
   match goal with
@@ -411,5 +456,101 @@ Section Eq.
       rewrite padd_str. cbn [bind app].
       cred_uri gen_check_response_eq Q.
     - cred_uri gen_check_response_eq Q.
+  Qed.
+
+  (* ---- the request gate: the innermost function of check_digest.
+     [hdr] = None: no Authorization header; Some d: req.authorization = d.
+     check_token is the Section variable CT of the generated code: any
+     function that computes the model's [check_nonce] (for a present nonce
+     this is C16_generated_check_token_is_model with
+     CT a b c d := gen_check_token Ht a b c d (clock t)). *)
+  Variable Ht : str -> str.
+
+  Definition s_Authorization : str :=
+    [65;117;116;104;111;114;105;122;97;116;105;111;110].
+  Definition deny (realm : str) (stale : bool) : res pv :=
+    Err (Raised "HTTPException"
+           (PTuple (PInt 401 :: PTuple [PStr [114;101;97;108;109]; PStr realm]
+                    :: if stale
+                       then [PTuple [PStr [115;116;97;108;101]; PBool true]]
+                       else []))).
+  (* the key of the KeyError: 'type', else 'username' *)
+  Definition missing_key (hdr : option dict) : str :=
+    match hdr with
+    | Some d => match dget k_type d with None => k_type | Some _ => k_username end
+    | None => []
+    end.
+  Definition inj_result (realm : str) (hdr : option dict) (r : result) : res pv :=
+    match r with
+    | Run u => pcall_endpoint (PStr u)
+    | Deny401 stale => deny realm stale
+    | Crash x =>
+        if String.eqb x "KeyError"
+        then Err (Raised "KeyError" (PStr (missing_key hdr)))
+        else Err ZeroDivisionError
+    end.
+
+  Theorem gen_digest_handler_eq hdr e qv hv authv CT :
+    qop_ok qv (c_qop e) ->
+    pnot_contains (PStr s_Authorization) hv
+    = Ok (PBool (negb (is_some hdr))) ->
+    (forall d, hdr = Some d -> authv = inj_dict d) ->
+    (forall d, CT (inj_opt (dget k_nonce d)) (PStr (c_secret e))
+                  (PStr (r_client e)) (inj_to (c_timeout e))
+               = inj_ob (check_nonce Ht d e)) ->
+    gen_digest_handler Hh Ho Unq CT authv (PStr (r_method e))
+      (PStr (req_path e)) (PStr (req_query e)) (PStr (r_host e))
+      (PStr (c_algorithm e)) qv (inj_map (c_map e))
+      hv (PStr (c_secret e)) (PStr (r_client e)) (inj_to (c_timeout e))
+      (PStr (c_realm e)) (inj_user (c_user e))
+    = inj_result (c_realm e) hdr (gate Ht Hh Ho Unq hdr e).
+  Proof.
+    intros Q Hhv Hauth HCT. unfold gen_digest_handler, gate.
+    unfold s_Authorization in Hhv.
+    cbv beta zeta. rewrite Hhv. cbn [bind]. rewrite truthy_bool.
+    destruct hdr as [d|]; cbn [is_some negb]; [|reflexivity].
+    rewrite (Hauth d eq_refl). rewrite pgetitem_inj.
+    change [116; 121; 112; 101] with k_type.
+    destruct (dget k_type d) as [ty|] eqn:Ety; cbn [bind].
+    2: { cbn [inj_result String.eqb missing_key]. rewrite Ety. reflexivity. }
+    rewrite pne_str. cbn [bind]. rewrite truthy_bool.
+    change [68; 105; 103; 101; 115; 116] with s_Digest.
+    destruct (negb (lz_eqb ty s_Digest)); [reflexivity|].
+    rewrite pdict_get_inj. cbn [bind].
+    change [110; 111; 110; 99; 101] with k_nonce. rewrite HCT.
+    destruct (check_nonce Ht d e) as [[|]|]; cbn [inj_ob bind];
+      [|reflexivity|reflexivity].
+    change (pnot (PBool true)) with (Ok (PBool false)). cbn [bind].
+    rewrite truthy_bool.
+    rewrite (gen_check_credentials_eq d e qv Q). cbn [bind].
+    destruct (check_credentials Hh Ho Unq d e); [|reflexivity].
+    change (pnot (PBool true)) with (Ok (PBool false)). cbn [bind negb].
+    rewrite truthy_bool. rewrite pgetitem_inj.
+    change [117; 115; 101; 114; 110; 97; 109; 101] with k_username.
+    destruct (dget k_username d) as [u|]; cbn [bind]; [reflexivity|].
+    cbn [inj_result String.eqb missing_key]. rewrite Ety. reflexivity.
+  Qed.
+
+  (* ... in particular with the check_token generated from session.py
+     (gen/TokenGen.v), time the exact rational [clock (r_time e)] *)
+  Theorem gen_digest_handler_token_eq hdr e qv hv authv :
+    qop_ok qv (c_qop e) ->
+    pnot_contains (PStr s_Authorization) hv
+    = Ok (PBool (negb (is_some hdr))) ->
+    (forall d, hdr = Some d -> authv = inj_dict d) ->
+    0 <= r_time e -> (forall T, c_timeout e = Some T -> 0 <= T) ->
+    gen_digest_handler Hh Ho Unq
+      (fun a b c d => gen_check_token Ht a b c d (clock (r_time e)))
+      authv (PStr (r_method e))
+      (PStr (req_path e)) (PStr (req_query e)) (PStr (r_host e))
+      (PStr (c_algorithm e)) qv (inj_map (c_map e))
+      hv (PStr (c_secret e)) (PStr (r_client e)) (inj_to (c_timeout e))
+      (PStr (c_realm e)) (inj_user (c_user e))
+    = inj_result (c_realm e) hdr (gate Ht Hh Ho Unq hdr e).
+  Proof.
+    intros Q Hhv Hauth Ht0 HT. apply gen_digest_handler_eq; try assumption.
+    intros d. unfold check_nonce.
+    destruct (dget k_nonce d) as [n|]; cbn [inj_opt];
+      [apply gen_check_token_eq|apply gen_check_token_none]; assumption.
   Qed.
 End Eq.
